@@ -227,9 +227,10 @@ Proof.
   intros I H HR. destruct I. constructor; auto. cbn. intros HM HF. rewrite (HR HM) in HF. discriminate.
 Qed.
 
-Lemma inv_root_barrier e c : Inv e c -> Inv e (root_barrier c) /\ (ph c = Mark -> rnt (root_barrier c) = true).
+Lemma inv_root_barrier e c :
+  Inv e c -> Inv e (root_barrier c) /\ (ph (root_barrier c) = Mark -> rnt (root_barrier c) = true).
 Proof.
-  intros I. unfold root_barrier. destruct (ph c) eqn:P; try (split; [auto|discriminate]).
+  intros I. unfold root_barrier. destruct (ph c) eqn:P; try (split; [auto|rewrite P; discriminate]).
   split; [|reflexivity]. destruct I. constructor; auto; cbn.
   - rewrite P. discriminate.
   - discriminate.
